@@ -736,14 +736,25 @@ def rule_module_state(rep):
                     if not (isinstance(n, ast.Name) and isinstance(n.ctx, ast.Load) and n.id in glob and n.id not in local):
                         continue
                     par = parent(n)
-                    readonly = (
-                        (isinstance(par, ast.Compare) and n in par.comparators and all(isinstance(o, (ast.In, ast.NotIn)) for o in par.ops))
-                        or (isinstance(par, ast.Subscript) and par.value is n and isinstance(par.ctx, ast.Load))
-                        or (isinstance(par, (ast.For, ast.comprehension)) and par.iter is n)
-                        or (isinstance(par, ast.Call) and isinstance(par.func, ast.Name) and par.func.id in ("len", "list", "dict", "set", "tuple", "sorted", "iter", "enumerate") and n in par.args)
-                        or (isinstance(par, ast.Attribute) and par.value is n and par.attr in ("get", "items", "keys", "values", "copy", "index", "count"))
+                    # the object itself (not a copy, an element or a test on it) is stored, returned or handed on
+                    escapes = (
+                        (isinstance(par, (ast.Assign, ast.AnnAssign)) and par.value is n)
+                        or (isinstance(par, ast.Return) and par.value is n)
+                        or (isinstance(par, ast.Call) and (n in par.args or any(k.value is n for k in par.keywords))
+                            and not (isinstance(par.func, ast.Name) and par.func.id in (
+                                "len", "list", "dict", "set", "tuple", "sorted", "iter", "enumerate", "frozenset", "any", "all",
+                                "sum", "min", "max", "str", "repr", "isinstance", "zip", "map", "filter", "reversed")))
+                        or (isinstance(par, ast.keyword) and par.value is n)
+                        or (isinstance(par, (ast.List, ast.Tuple, ast.Set)) and n in par.elts)
+                        or (isinstance(par, ast.Dict) and n in par.values)
+                        or (isinstance(par, ast.IfExp) and (par.body is n or par.orelse is n))
+                        or (isinstance(par, ast.BoolOp) and n in par.values and not isinstance(parent(par), (ast.If, ast.While)))
                     )
-                    if readonly:
+                    if isinstance(par, ast.keyword):
+                        call = parent(par)
+                        if isinstance(call, ast.Call) and isinstance(call.func, ast.Name) and call.func.id in ("sorted", "min", "max"):
+                            escapes = False
+                    if not escapes:
                         continue
                     n_esc += 1
                     key = (f.qual, n.id)
@@ -832,6 +843,21 @@ def rule_action_precedence(rep):
         g = cfgmod.build_region(loop.body)
         file_lookups = [(n, c) for n, c in g.nodes_calling("resolve_action_by_name")]
         over = [(n, c) for n, c in g.nodes_calling("get") if unparse(c.func.value) == "action_overrides"]
+        # `action_overrides[K]` is a lookup too
+        class _Sub:  # same shape as a call for the code below
+            def __init__(self, key):
+                self.args = [key]
+        for n in g.nodes:
+            if n.ast is None or n.kind not in ("stmt", "test"):
+                continue
+            for x in ast.walk(n.ast):
+                if isinstance(x, ast.Subscript) and isinstance(x.ctx, ast.Load) and unparse(x.value) == "action_overrides":
+                    over.append((n, _Sub(x.slice)))
+                elif (
+                    isinstance(x, ast.Compare) and len(x.ops) == 1 and isinstance(x.ops[0], (ast.In, ast.NotIn))
+                    and unparse(x.comparators[0]) == "action_overrides"
+                ):
+                    over.append((n, _Sub(x.left)))  # a membership test consults the overrides for that name
         r.floor("lookups in the companion module", len(file_lookups), 4)
         r.floor("lookups in the overrides", len(over), 4)
         over_T = g.test_edges(lambda e: unparse(e) == "action_overrides", "F")
